@@ -96,7 +96,7 @@ impl<'l> DataExpr<'l>
 	{
 		match ctx.active_mut()
 		{
-			Some(active) if self.addr >= active.base_addr() && self.addr <= active.curr_addr() =>
+			Some(active) if active.covers(self.addr) =>
 			{
 				if let Err(e) = active.write_at(self.addr, data)
 				{
